@@ -235,7 +235,8 @@ pub fn csv_text_variant(rows: &[Row], variant: u32) -> String {
         .map(|&c| {
             if c == usize::MAX {
                 extra += 1;
-                style(&format!("broker note {}", extra))
+                // the first unrecognised column has a blank header cell (e.g. a spreadsheet's index column)
+                if extra == 1 { String::new() } else { style(&format!("broker note {}", extra)) }
             } else {
                 style(HEADER[c])
             }
